@@ -670,8 +670,13 @@ def check_crash(res: Result, cfg, label: str, rp: dict, ref: dict, k: int, d: di
     for (dname, p), n in execs.items():
         if p in backup:
             missing = set(r_final.get(p, {})) - set(backup[p])
-            # an MDA executes its disciplines several times per evaluation
-            bound = len(missing) * (1000 if sc.get("iterative") else 1)
+            # an MDA executes its disciplines several times per evaluation.
+            # Each missing output may cost one execution of the discipline; each missing *gradient* may cost one
+            # more, because a process linearizes its disciplines at the data of the current point and re-executes
+            # them to obtain these data when they have no cache (MDOChain._compute_jacobian since fix db0804c).
+            # A point stored completely has nothing missing: bound 0, the literal clause of the property.
+            n_grad = sum(1 for m in missing if str(m).startswith("@"))
+            bound = (len(missing) + n_grad) * (1000 if sc.get("iterative") else 1)
             if not n <= bound:
                 res.violate("oracle", "rework",
                             f"{label}: discipline {dname} executed {n} time(s) at the stored point {fl(p)} "
